@@ -490,6 +490,17 @@ def random_trace(seed, tid, workdir, props):
             (top[i].connect(top[j])) if rng.random() < 0.5 else (top[j].connect(top[i]))
             bonds, nb, anchors, triple = bonds2, nb2, anchors2, triple2
     m = ExchangeMap(refmol, tgt, s)
+    if rng.random() < 0.2:
+        # the documented route to a map: an Alignment initialises it "with the current molecules configuration".  A
+        # first map for another overlap, the overlap changed in place, the map initialised again with the same scale.
+        from gaddlemaps import Alignment
+        ali = Alignment(start=refmol, end=tgt)
+        ali.end.atoms_positions = centre + rng.uniform(-1, 1, (nt, 3))
+        ali.init_exchange_map(s)
+        ali.end.atoms_positions = tpos
+        ali.start.atoms_positions = pos
+        ali.init_exchange_map(s)
+        m = ali.exchange_map
     # other maps built afterwards and kept alive (another scale, another target conformation, the same atom indexes):
     # what a map does is fixed by its own construction, not by which map of the process was built last
     decoys = []
